@@ -6,6 +6,7 @@ import (
 	"errors"
 	"fmt"
 	"os"
+	"strings"
 	"testing"
 	"time"
 
@@ -35,12 +36,22 @@ type Case struct {
 	Fin    string `json:"fin"`    // msg | send | msgempty
 	Steps  []Step `json:"steps"`
 	Build  string `json:"build"`
+	// FailFirst: each measured run first emits an event through a logger whose writer returns an
+	// error (ErrorHandler set to a no-op), then the chain itself
+	FailFirst bool `json:"fail_first,omitempty"`
 }
+
+// values longer than 32 bytes that need escaping (a conversion to string/[]byte of such a value
+// cannot use the compiler's small stack buffer)
+var (
+	longEsc40  = strings.Repeat("ab\"c", 10)
+	longEsc120 = strings.Repeat("x\ny\\z€", 15)
+)
 
 // ---- pre-created arguments
 var (
-	strVals   = []string{"", "v", "hello world", "with \"quote\" and \n newline", "ünïcödé €", "\xff\xfe"}
-	bytesVals = [][]byte{nil, {}, []byte("bytes"), {0, 1, 2, 0xff}, []byte("q\"\\")}
+	strVals   = []string{"", "v", "hello world", "with \"quote\" and \n newline", "ünïcödé €", "\xff\xfe", longEsc40, longEsc120, strings.Repeat("plain", 20)}
+	bytesVals = [][]byte{nil, {}, []byte("bytes"), {0, 1, 2, 0xff}, []byte("q\"\\"), []byte(longEsc40), []byte(longEsc120), []byte(strings.Repeat("plain", 20))}
 	intVals   = []int64{0, 1, -1, 23, 24, 255, 256, -32768, 65535, 1 << 31, -1 << 62, 9223372036854775807}
 	uintVals  = []uint64{0, 1, 255, 65536, 1 << 32, 1<<64 - 1}
 	f64Vals   = []float64{0, 1.5, -2.25, 1e-7, 1e21, 3.141592653589793, 1e300}
@@ -267,6 +278,13 @@ func compile(steps []Step, depth int) []func(*zerolog.Event) *zerolog.Event {
 	return out
 }
 
+// failW always fails: with ErrorHandler set, the error path must not cost the next events anything.
+type failW struct{}
+
+var errFail = errors.New("write failed")
+
+func (failW) Write(p []byte) (int, error) { return 0, errFail }
+
 type countW struct{ n, bytes int }
 
 func (w *countW) Write(p []byte) (int, error) { w.n++; w.bytes += len(p); return len(p), nil }
@@ -292,7 +310,18 @@ func run(c *Case) (string, bool) {
 	}
 	steps := compile(c.Steps, 0)
 	fin := c.Fin
+	var bad zerolog.Logger
+	if c.FailFirst {
+		bad = zerolog.New(failW{})
+		old := zerolog.ErrorHandler
+		zerolog.ErrorHandler = func(error) {}
+		defer func() { zerolog.ErrorHandler = old }()
+	}
 	f := func() {
+		if c.FailFirst {
+			// history: an event whose write fails, immediately before the measured event
+			bad.Warn().Str("k", "v").Msg("lost")
+		}
 		e := l.Info()
 		for _, s := range steps {
 			e = s(e)
@@ -375,6 +404,7 @@ func TestRapidChains(t *testing.T) {
 		c := &Case{Logger: rapid.SampledFrom([]string{"bare", "ctx", "ts", "filtered", "filtered-ctx", "nop"}).Draw(rt, "logger"),
 			Fin: rapid.SampledFrom([]string{"msg", "send", "msgempty"}).Draw(rt, "fin"), Build: buildName()}
 		c.Steps = genSteps(rt, 0, 8, "s")
+		c.FailFirst = rapid.IntRange(0, 4).Draw(rt, "failfirst") == 0
 		msg, nt := run(c)
 		b, _ := json.Marshal(c)
 		rec.Case(b, nt, "logger:"+c.Logger, "build:"+buildName())
@@ -409,6 +439,13 @@ func TestEachFamily(t *testing.T) {
 					fail(t, "family", c, m+": "+msg)
 				}
 			}
+		}
+	}
+	for _, lg := range []string{"bare", "ctx", "filtered"} {
+		c := &Case{Logger: lg, Fin: "msg", Build: buildName(), FailFirst: true, Steps: []Step{{M: "str", V: 1}, {M: "int", V: 2}}}
+		n++
+		if msg, _ := run(c); msg != "" {
+			fail(t, "family", c, "after a failed write: "+msg)
 		}
 	}
 	rec.Bulk(n, n, "each-family:"+buildName())
